@@ -125,6 +125,8 @@ pub fn run(ctx: &Ctx) -> CheckResult {
     let rough = s_ops(&S_ROUGH);
     let grid = with_reset(b_ops(&b_grid()));
     let mults = [0.0, 0.5, 2.0, 1e6];
+    // valid bars at negative price levels (spreads, basis series): the grid shifted by -5
+    let neg_grid: Vec<Op> = with_reset(b_grid().iter().map(|b| Op::B(Bar { o: b.o - 5.0, h: b.h - 5.0, l: b.l - 5.0, c: b.c - 5.0, v: b.v })).collect());
     let mut spaces = vec![];
     for n in 1..=5usize {
         for k in [Kind::Sd, Kind::Mad, Kind::Sma, Kind::Wma, Kind::Ema, Kind::Min, Kind::Atr] {
@@ -139,6 +141,8 @@ pub fn run(ctx: &Ctx) -> CheckResult {
             spaces.push(Space { cfg: Cfg::pm(Kind::Kc, n, m), alphabet: rough.clone(), depth: dr - 2, label: "S_rough" });
             spaces.push(Space { cfg: Cfg::pm(Kind::Kc, n, m), alphabet: grid.clone(), depth: db - 1, label: "B_grid+reset" });
             spaces.push(Space { cfg: Cfg::pm(Kind::Ce, n, m), alphabet: grid.clone(), depth: if m == 2.0 { db + 1 } else { db }, label: "B_grid+reset" });
+            spaces.push(Space { cfg: Cfg::pm(Kind::Ce, n, m), alphabet: neg_grid.clone(), depth: db - 1, label: "B_grid-5+reset" });
+            spaces.push(Space { cfg: Cfg::pm(Kind::Kc, n, m), alphabet: neg_grid.clone(), depth: db - 2, label: "B_grid-5+reset" });
         }
     }
     spaces.push(Space { cfg: Cfg::p0(Kind::Tr), alphabet: int.clone(), depth: d, label: "S_int+reset" });
@@ -179,6 +183,11 @@ pub fn run(ctx: &Ctx) -> CheckResult {
                     }
                     mj.push((Cfg::pm(Kind::Bb, n, 2.0), ord.clone(), m));
                     mj.push((Cfg::pm(Kind::Bb, n, 0.0), ord.clone(), m));
+                    // exponential-memory composites: long flat tails let the averages converge to within an ulp
+                    mj.push((Cfg::p3(Kind::Macd, n, 2 * n, n + 1), ord.clone(), m));
+                    mj.push((Cfg::p3(Kind::Ppo, n, 2 * n, n + 1), ord.clone(), m));
+                    mj.push((Cfg::pm(Kind::Kc, n, 2.0), ord.clone(), m));
+                    mj.push((Cfg::p1(Kind::Atr, n), ord.clone(), m));
                 }
             }
         }
@@ -226,6 +235,6 @@ pub fn run(ctx: &Ctx) -> CheckResult {
         res.absorb(merge_jobs(outs));
     }
     res.rule = "case = (configuration, history); invariants evaluated on the real output in every state: SD/MAD >= 0 and not NaN, TR/ATR >= 0, Minimum <= Maximum (paired run), lower <= average <= upper (BB, KC; multiplier >= 0), CE inside the reference window extremes, histogram = line - signal (MACD, PPO), SMA/WMA inside the window hull, EMA inside the history hull (last groups up to tau(t)*M); non-trivial = history longer than the window".into();
-    res.bounds = format!("seq(S_int+reset,{d}) and seq(S_rough,{dr}) scalar, seq(B_grid+reset,{db}) bars, periods 1..5, multipliers {{0,0.5,2,1e6}}; all 5^3 orderings of {{extremes, flat, spikes, osc, tick}} segments at scales 1e-3, 1, 1e9");
+    res.bounds = format!("seq(S_int+reset,{d}) and seq(S_rough,{dr}) scalar, seq(B_grid+reset,{db}) bars (ChandelierExit / KeltnerChannel also on the grid shifted to negative prices), periods 1..5, multipliers {{0,0.5,2,1e6}}; all 5^3 orderings of {{extremes, flat, spikes, osc, tick}} segments at scales 1e-3, 1, 1e9");
     res
 }
